@@ -583,6 +583,24 @@ def fold_route_fact(kb):
             b = body.find(";", pos)
             stmt = " ".join(body[a:b + 1].split())
             n += 1
+            # nothing may return before the call inside the block that holds it (an early `return` for "trivial" operands
+            # bypasses the numeric dispatch and with it the C++ result type)
+            depth, j, levels = 0, pos, 0
+            while j > 0:
+                j -= 1
+                if body[j] == "}":
+                    depth += 1
+                elif body[j] == "{":
+                    if depth == 0:
+                        levels += 1
+                        # up to the body of the member function that holds the call (try block, arithmetic branch, function)
+                        if levels == 3 or re.search(r"\)\s*(?:const)?\s*(?:noexcept)?\s*(?:override|final)?\s*$", body[:j]) and not re.search(r"\b(?:if|for|while|switch|catch)\s*\([^{}]*$", body[:j]):
+                            break
+                        continue
+                    depth -= 1
+            if re.search(r"\breturn\b", chai2c._mask(body[j:a])):
+                bad.append("%s: a return statement precedes the do_oper call in its block" % st)
+                continue
             if re.fullmatch(r"(?:const auto \w+ = |auto \w+ = |return )Boxed_Number::do_oper\([\w:\->\.\[\] ,\(\)]*\);", stmt) and "?" not in stmt:
                 continue
             (bad if "?" in stmt else unknown).append("%s: `%s`" % (st, stmt[:160]))
